@@ -103,7 +103,7 @@ def run_unit(unit, workdir):
         if d.level != "error" or d.kind == "noise":
             continue
         placed = False
-        prim = [l for l in d.lines if l[3]] or d.lines
+        prim = [l for l in d.lines if l[3]] + [l for l in d.lines if not l[3]]
         for (ls, le, label, isprim) in prim:
             fi = _fn_of_line(infos, ls)
             if fi is not None:
@@ -295,6 +295,23 @@ def report(prop, tier, seed, results, wall, pm):
     out_lines = []
     exit_code = 0
     nviol = 0
+    # undecided functions: the executable contracts are an independent, sound detector (a concrete failing
+    # input on the real code is a violation whatever the reason the proof could not be completed)
+    from . import native as _native
+    und_fns = []
+    for res, infos, text in results:
+        for fr in res["functions"]:
+            if prop in fr["info"].tags and fr["status"] == "undecided":
+                und_fns.append((res["unit"], fr))
+    if und_fns and os.environ.get("HV_NO_NATIVE") != "1":
+        for unit, fr in und_fns[:6]:
+            nat = _native.search(prop, unit, fr["info"], fr["failed"], seed)
+            if nat and nat.get("failing_input") is not None:
+                f0 = fr["failed"] or [{"obligation": "%s::%s::safety" % (unit, fr["info"].name), "clause": "", "verus_message": "undecided", "at": "", "rendered": ""}]
+                for f in f0:
+                    f["kind"] = "refuted"
+                violations.append((unit, fr["info"], f0))
+                undecided[:] = [u for u in undecided if not u.startswith("%s::%s::" % (unit, fr["info"].name))]
     os.makedirs(os.path.join(VERIF, "replay_out"), exist_ok=True)
     from . import replaylib
     for unit, i, failed in violations:
